@@ -365,9 +365,16 @@ func ruleCaretAlign(p *Prog, r *Result) {
 					walkC(e, d+1)
 				}
 			case *ssa.Call:
-				if bi, ok := x.Call.Value.(*ssa.Builtin); ok && (bi.Name() == "max" || bi.Name() == "min") {
+				// max / min: the builtins, or package functions of that name with two parameters
+				name := ""
+				if bi, ok := x.Call.Value.(*ssa.Builtin); ok {
+					name = bi.Name()
+				} else if g := x.Call.StaticCallee(); g != nil && g.Signature.Params().Len() == 2 {
+					name = g.Name()
+				}
+				if name == "max" || name == "min" {
 					for _, a := range x.Call.Args {
-						if k, ok := constInt(a); ok && k == 0 && bi.Name() == "max" {
+						if k, ok := constInt(a); ok && k == 0 && name == "max" {
 							clamped = true
 						}
 						walkC(a, d+1)
